@@ -130,10 +130,163 @@ def deductive(rep: Report, tier):
         def post_g(I, ctx, outcome, val, aux):
             return [("raises_ValueError", outcome == "raise" and val.exc_type == "ValueError"), ("nothing_called_before", "core" not in ctx.ghost)]
         run_case(rep, P, G + "solve", f"guard_square.{prec}", setup_g, post_g, lib=lib, contracts=contracts, clauses=["raises_ValueError", "nothing_called_before"])
+    solve_left_lu(rep)
     core_bookkeeping(rep)
     # canary: a residual formed against a different right-hand side is not accepted
     a, b, c = z3.Reals("a b c")
     rep.canary("C04.canary.other_rhs", smt.prove([a >= 0, b > 0, c > 0], a / b == a / c, 5).status == smt.REFUTED)
+
+
+# ----------------------------------------------------------------------------------------------------
+# solve() with the left LU preconditioner (abstract quaternion algebra; LU and the triangular solves by contract)
+class Comp:
+    """Component c of an abstract quaternion matrix (handle passed between _quat_to_components, the core and back)."""
+    qv_value = True
+
+    def __init__(self, mat, c):
+        self.mat, self.c = mat, c
+        self.shape = mat.shape
+
+
+def solve_left_lu(rep: Report):
+    from ..interp import LoopRule
+    from ..nc import Atom
+    from ..values import fresh_hmat
+    from .c13 import k_upper_solve
+    LUQ = "quatica/decomp/LU.py::quaternion_lu"
+    lib = Library("nc")
+    lib.qmode = "H"
+
+    def k_lu(I, args, kwargs):
+        """quaternion_lu(A, return_p=True) by its C07 contract: P A = L U with P a permutation, L, U invertible; it may
+        also raise (zero pivot), which solve() catches."""
+        (A,) = args[:1]
+        c = cur()
+        if c.decide(SBool(z3.Bool(c.fresh_name("lu_fails")))):
+            raise Raised("ValueError", "zero pivot")
+        n = A.shape[0]
+        Li, Ui = Atom("Linv", n, n, "gen", alg="H"), Atom("Uinv", n, n, "gen", alg="H")
+        L, U = Atom("L", n, n, "gen", inv_of="Linv", alg="H"), Atom("U", n, n, "gen", inv_of="Uinv", alg="H")
+        Pm = Atom("P", n, n, "orth", alg="H")
+        w = [wd for wd in A.p.t]
+        if len(w) != 1 or len(w[0]) != 1:
+            raise OutOfReach("LU of a compound expression")
+        ncm.add_rewrite((("P", False),) + tuple(w[0]), (("L", False), ("U", False)))
+        M = NC.atom(Ui) @ NC.atom(Li) @ NC.atom(Pm)
+        c.ghost["lu"] = dict(A=A, Minv=M)
+        return HMat(NC.atom(L)), HMat(NC.atom(U)), HMat(NC.atom(Pm))
+
+    def k_to_comps(I, args, kwargs):
+        _, A = args
+        if not isinstance(A, HMat):
+            raise OutOfReach("components of a non-matrix")
+        return tuple(Comp(A, c) for c in range(4))
+
+    def k_core_h(I, args, kwargs):
+        slf, A0, A1, A2, A3, b0, b1, b2, b3, tol, maxit = args
+        c = cur()
+        ok = all(isinstance(x, Comp) and x.c == i for i, x in enumerate((A0, A1, A2, A3))) and len({id(x.mat) for x in (A0, A1, A2, A3)}) == 1 \
+            and all(isinstance(x, Comp) and x.c == i for i, x in enumerate((b0, b1, b2, b3))) and len({id(x.mat) for x in (b0, b1, b2, b3)}) == 1
+        if not ok:
+            raise OutOfReach("core called with mixed components")
+        X = fresh_hmat("X", A0.shape[1], 1)
+        res, it = SReal.var("res_core"), SInt.var("iter_core")
+        hist = SymList(SInt.var("len_hist"), "resv")
+        c.ghost["core"] = dict(A=A0.mat, b=b0.mat, tol=tol, maxit=maxit, X=X, res=res, iter=it, hist=hist)
+        return (*[Comp(X, i) for i in range(4)], res, Opaque("V0"), Opaque("V1"), Opaque("V2"), Opaque("V3"), it, hist)
+
+    def k_from_comps(I, args, kwargs):
+        _, c0, c1, c2, c3 = args
+        if all(isinstance(x, Comp) and x.c == i for i, x in enumerate((c0, c1, c2, c3))) and len({id(x.mat) for x in (c0, c1, c2, c3)}) == 1:
+            return c0.mat
+        raise OutOfReach("components of different matrices recombined")
+
+    class Columns(LoopRule):
+        """for Aj in A_cols: after k columns A_tilde_cols[j] = U^-1 L^-1 P A[:, j] for every j < k."""
+        modifies = ("A_tilde_cols",)
+
+        def entry(self, fr):
+            M = cur().ghost["lu"]["Minv"]
+            cols = fr.vars["A_cols"]
+            return lambda j: HMat(M @ cols.entry(j).p)
+
+        def establish(self, it, fr, start):
+            v = fr.vars.get("A_tilde_cols")
+            cur().require("inv.establish", isinstance(v, list) and not v, "no preconditioned column yet", key="lu.columns.inv.establish")
+
+        def havoc(self, it, fr, k):
+            fr.vars["A_tilde_cols"] = SymList(k, "A_tilde_cols", entry=self.entry(fr))
+
+        def preserve(self, it, fr, k):
+            c = cur()
+            v = fr.vars.get("A_tilde_cols")
+            one = isinstance(v, SymList) and len(v.items) == 1 and isinstance(v.items[0], HMat)
+            c.require("inv.preserve", one, "exactly one column appended", key="lu.columns.inv.preserve.one_append")
+            if one:
+                st, be, secs, wit = ncm.nc_equal_obligation(v.items[0].p, self.entry(fr)(k).p, c.hyps())
+                c.require("inv.preserve", st == smt.PROVED, f"appended column is U^-1 L^-1 P A[:, k]: {wit}", key="lu.columns.inv.preserve.value")
+
+    def np_concatenate(parts, axis=0):
+        if isinstance(parts, SymList) and axis == 1 and parts.entry is not None and not parts.items:
+            c = cur()
+            j = SInt.var(c.fresh_name("jcol"))
+            c.assume(sand(j >= 0, j < parts.prefix_len))
+            pj = parts.entry(j).p
+            key = f"e[{SInt.lift(j)}]"
+            W = {}
+            for w, coef in pj.t.items():
+                if not w or w[-1] != (key, False) or any(str(SInt.lift(j)) in n for n, _ in w[:-1]):
+                    raise OutOfReach("concatenated columns are not of the form W e_j")
+                W[w[:-1]] = coef
+            return HMat(NC(W, pj.rows, parts.prefix_len))
+        raise OutOfReach("np.concatenate form")
+    lib.np.table["concatenate"] = np_concatenate
+    contracts = dict(ALGEBRA)
+    contracts.update({LUQ: k_lu, S + "_solve_lower_triangular_quat": k_upper_solve, S + "_solve_upper_triangular_quat": k_upper_solve,
+                      G + "_quat_to_components": k_to_comps, G + "_GMRESQsparse": k_core_h, G + "_components_to_quat": k_from_comps})
+
+    def setup(I, ctx):
+        (n,) = dims(ctx, "n")
+        tol = SReal.var("tol")
+        A, b = fresh_hmat("A", n, n), fresh_hmat("b", n, 1)
+        slf = mk_self(I, "QGMRESSolver", tol=tol, max_iter=None, verbose=False, preconditioner="left_lu")
+        HMat.column_atoms = True
+        return [slf, A, b], {}, dict(A=A, b=b, n=n, tol=tol, slf=slf)
+
+    def post(I, ctx, outcome, val, aux):
+        if outcome == "loop_end" or outcome == "abort":
+            return []
+        if outcome != "return":
+            return [("no_exception", False)]
+        g = ctx.ghost.get("core")
+        ok = isinstance(val, tuple) and len(val) == 2 and isinstance(val[1], dict) and g is not None
+        out = [("no_exception", True), ("returns_x_and_info", ok)]
+        if not ok:
+            return out
+        x, info = val
+        A, b, n = aux["A"], aux["b"], aux["n"]
+        out.append(("x_is_the_core_iterate", x is g["X"]))
+        lu = ctx.ghost.get("lu")
+        if lu is not None:
+            # preconditioned system: M^-1 A (= I by the LU contract) and M^-1 b
+            st1 = ncm.nc_equal_obligation(g["A"].p, NC.eye(n), ctx.hyps())[0] == smt.PROVED
+            st2 = ncm.nc_equal_obligation(g["b"].p, lu["Minv"] @ b.p, ctx.hyps())[0] == smt.PROVED
+            out.append(("core_sees_the_preconditioned_or_original_system", st1 and st2))
+        else:
+            out.append(("core_sees_the_preconditioned_or_original_system", g["A"] is A and g["b"] is b))
+        true = ssqrt(ncm.fro2(A.p @ g["X"].p - b.p)) / (ssqrt(ncm.fro2(b.p)) + Fraction(1, 10 ** 30))
+        out.append(("residual_is_true_residual_against_the_original_system", req(info.get("residual"), true)))
+        out.append(("residual_true_is_true_residual_against_the_original_system", req(info.get("residual_true"), true)))
+        conv = info.get("converged")
+        out.append(("converged_is_core_residual_below_tol", (conv == (g["res"] < aux["tol"])) if isinstance(conv, SBool) else False))
+        return out
+    cl = ["no_exception", "returns_x_and_info", "x_is_the_core_iterate", "core_sees_the_preconditioned_or_original_system",
+          "residual_is_true_residual_against_the_original_system", "residual_true_is_true_residual_against_the_original_system", "converged_is_core_residual_below_tol"]
+    try:
+        run_case(rep, P, G + "solve", "left_lu", setup, post, lib=lib, contracts=contracts, loop_rules={(G + "solve", 0): Columns()},
+                 clauses=cl, replay=replay_solve, timeout_s=30)
+    finally:
+        HMat.column_atoms = False
 
 
 # ----------------------------------------------------------------------------------------------------
